@@ -2,6 +2,7 @@ package gen
 
 import (
 	"fmt"
+	"strings"
 
 	"github.com/gogo/protobuf/proto"
 	pb "github.com/ipfs/boxo/ipld/unixfs/pb"
@@ -28,7 +29,8 @@ type HandSpec struct {
 	LeafKind   string // "raw" | "pbfile" | "pbraw" | "mixed" (alternating raw / pbfile)
 	BlockSizes string // "all" | "none" | "short" (last entry missing) | "long" (one spare trailing entry)
 	FileSize   bool
-	Tsize      bool
+	Tsize      bool // links carry a Tsize
+	TsizeZero  bool // ... of value 0 (Tsize is optional and advisory in dag-pb)
 }
 
 func l(n int, seed byte) HandNode {
@@ -75,6 +77,13 @@ func HandFamily() []HandSpec {
 					out = append(out, HandSpec{Label: fmt.Sprintf("hand %s leaves=%s blocksizes=%s filesize=%v", n, lk, bs, fs),
 						Root: shapes[n], LeafKind: lk, BlockSizes: bs, FileSize: fs, Tsize: true})
 				}
+				// links without Tsize / with Tsize 0: only where the reader does
+				// not need it (dag-pb children sized by BlockSizes)
+				if (lk == "pbfile" || lk == "pbraw") && (bs == "all" || bs == "long") {
+					out = append(out,
+						HandSpec{Label: fmt.Sprintf("hand %s leaves=%s blocksizes=%s filesize=true tsize=absent", n, lk, bs), Root: shapes[n], LeafKind: lk, BlockSizes: bs, FileSize: true},
+						HandSpec{Label: fmt.Sprintf("hand %s leaves=%s blocksizes=%s filesize=true tsize=zero", n, lk, bs), Root: shapes[n], LeafKind: lk, BlockSizes: bs, FileSize: true, Tsize: true, TsizeZero: true})
+				}
 			}
 		}
 	}
@@ -101,6 +110,20 @@ func HandByLabel(label string) (HandSpec, bool) {
 
 // Sized reports whether every interior node records the size of each child.
 func (h HandSpec) Sized() bool { return h.BlockSizes == "all" || h.BlockSizes == "long" }
+
+// LazyExact reports whether a reader can position itself anywhere in the file
+// without opening a child it does not need: every child's size is recorded
+// where the reader looks for it (BlockSizes for dag-pb children, Tsize for raw
+// leaves) and no chunk is empty.
+func (h HandSpec) LazyExact() bool {
+	if !h.Sized() || strings.Contains(h.Label, "empty") {
+		return false
+	}
+	if h.LeafKind == "raw" || h.LeafKind == "mixed" {
+		return h.Tsize && !h.TsizeZero
+	}
+	return true
+}
 
 // Build writes the DAG into s and returns the root and the file content.
 func (h HandSpec) Build(s *store.Store) (cid.Cid, []byte) {
@@ -144,7 +167,11 @@ func (h HandSpec) Build(s *store.Store) (cid.Cid, []byte) {
 		cum := uint64(0)
 		for _, ch := range n.Children {
 			cc, cont, ccum := rec(ch)
-			links = append(links, model.PBLink{Cid: cc, Tsize: ccum, HasTsize: h.Tsize})
+			ccumLink := ccum
+			if h.TsizeZero {
+				ccumLink = 0
+			}
+			links = append(links, model.PBLink{Cid: cc, Tsize: ccumLink, HasTsize: h.Tsize})
 			sizes = append(sizes, uint64(len(cont)))
 			content = append(content, cont...)
 			cum += ccum
